@@ -107,8 +107,19 @@ impl<'a> Binder<'a> {
                         .and_then(ident_value)
                         .unwrap_or_default();
                     if recursive {
-                        // the recursive CTE may refer to itself: pre-declare with unknown columns
-                        ctes.entry(name.clone()).or_insert_with(Vec::new);
+                        // the recursive CTE may refer to itself: its columns are those of the
+                        // anchor (left operand of the UNION)
+                        let anchor = cte
+                            .get("query")
+                            .and_then(|q| q.get("body"))
+                            .and_then(|b| b.get("SetOperation"))
+                            .map(|so| so["left"].clone());
+                        if let Some(a) = anchor {
+                            let saved = self.errors.len();
+                            let (cols, _) = self.set_expr(&a, &ctes, &[]);
+                            self.errors.truncate(saved);
+                            ctes.entry(name.clone()).or_insert(cols);
+                        }
                     }
                     let cols = match cte.get("query") {
                         Some(cq) => self.query(cq, &ctes, &[]),
